@@ -392,10 +392,12 @@ func reportViolation(c *Case, o *Outcome, replayDir string) FoundViolation {
 	min.History = mo.History
 	min.Signature = signatureOf(min, mo)
 	if min.Conc != nil {
-		min.Conc.Replay = mo.Decisions
+		min.Conc.Replay = nil
+		min.Conc.ReplayRLE = encodeRLE(mo.Decisions)
 	}
 	if min.Seq != nil {
-		min.Seq.Replay = mo.Decisions
+		min.Seq.Replay = nil
+		min.Seq.ReplayRLE = encodeRLE(mo.Decisions)
 	}
 	os.MkdirAll(replayDir, 0o755)
 	path := filepath.Join(replayDir, fmt.Sprintf("%s-%d-%d.json", c.Property, c.Seed, c.RunIndex))
@@ -855,6 +857,12 @@ func doReplay(path string) int {
 	if err := json.Unmarshal(b, &c); err != nil {
 		fmt.Fprintln(os.Stderr, err)
 		return 2
+	}
+	if c.Conc != nil && c.Conc.ReplayRLE != "" && c.Conc.Replay == nil {
+		c.Conc.Replay = decodeRLE(c.Conc.ReplayRLE)
+	}
+	if c.Seq != nil && c.Seq.ReplayRLE != "" && c.Seq.Replay == nil {
+		c.Seq.Replay = decodeRLE(c.Seq.ReplayRLE)
 	}
 	o := Execute(&c)
 	if o.Diverged {
